@@ -159,11 +159,54 @@ class RefExpDecay:
         return 4 * self.kx.tol(xa, xb) + C_TOL * EPS * (1 + self.alpha) * (self.kx.cs_bound() + pref * pref)
 
 
-def _cs_bound(self):
-    return self.cs
+def _fl(x):
+    h = float(x).hex()
+    return "(%s)" % h if h.startswith("-") else h
 
 
-RefMatern.cs_bound = _cs_bound
+def _fvec(v):
+    return "[" + "; ".join(_fl(x) for x in v) + "]"
+
+
+def _fmat(M):
+    return "[" + "; ".join(_fvec(r) for r in np.asarray(M, dtype=float)) + "]"
+
+
+# Coq term (kspec of the driver's PRELUDE), bound on the kernel value, and the extra tolerance for the model's
+# pow = exp(y * log x) against libm's pow.  For w = 1 - (1 - r^a)^b a relative error c*eps*(1 + a|ln r|) of r^a
+# moves w by b (1 - r^a)^(b-1) r^a times that (large near x = 1 when b < 1: the implementation's own formula is
+# ill-conditioned there), plus the error of the outer power; a Matern value moves by <= 1.5 cs ib_k per unit of
+# coordinate k (both arguments).
+def warp_error(X, blocks):
+    X = np.asarray(X, dtype=float)
+    dw = np.zeros(X.shape[1])
+    for lo, up, a, b in blocks:
+        for k in range(lo, up):
+            r = (1.0 - 2 * JITTER) * X[:, k] + JITTER
+            ra = np.power(r, a[k - lo])
+            u = np.maximum(1.0 - ra, 1e-300)
+            d_ra = ra * C_TOL * EPS * (1.0 + a[k - lo] * np.abs(np.log(r)))
+            d_u = d_ra + 2 * EPS
+            e = b[k - lo] * np.power(u, b[k - lo] - 1.0) * d_u + C_TOL * EPS * (1.0 + b[k - lo] * np.abs(np.log(u))) * np.power(u, b[k - lo])
+            dw[k] = float(np.max(e))
+    return dw
+
+
+RefMatern.coq = lambda self: "(KM %s %s)" % (_fvec(self.ib), _fl(self.cs))
+RefMatern.cs_bound = lambda self: self.cs
+RefMatern.pow_extra = lambda self, X: 0.0
+RefWarped.coq = lambda self: "(KW %s [%s])" % (self.inner.coq(), "; ".join(
+    "(%d%%nat, %d%%nat, %s, %s)" % (lo, up, _fvec(a), _fvec(b)) for lo, up, a, b in self.blocks))
+RefWarped.cs_bound = lambda self: self.inner.cs_bound()
+RefWarped.pow_extra = lambda self, X: 3.0 * self.inner.cs_bound() * float(
+    np.sum(np.asarray(self.inner.ib) * warp_error(X, self.blocks)))
+RefSlice.coq = lambda self: "(KR %s %d%%nat %d%%nat)" % (self.inner.coq(), self.start, self.stop - self.start)
+RefSlice.cs_bound = lambda self: self.inner.cs_bound()
+RefSlice.pow_extra = lambda self, X: self.inner.pow_extra(np.asarray(X)[:, self.start:self.stop])
+# ProductKernelFunction(k1, k2) splits at d1: first factor on x[:d1], second on x[d1:]
+RefProduct.coq = lambda self: "(KP %s %d%%nat %s)" % (self.k1.inner.coq(), self.k1.stop, self.k2.inner.coq())
+RefProduct.cs_bound = lambda self: self.k1.cs_bound() * self.k2.cs_bound()
+RefProduct.pow_extra = lambda self, X: (self.k1.pow_extra(X) * self.k2.cs_bound() + self.k2.pow_extra(X) * self.k1.cs_bound())
 
 
 # --------------------------------------------------------------------------
@@ -334,7 +377,7 @@ def build(spec):
 # --------------------------------------------------------------------------
 # one case
 # --------------------------------------------------------------------------
-def run_case(ctx, spec):
+def run_case(ctx, spec, ck_cases=None, ck_meta=None):
     from syne_tune.optimizer.schedulers.searchers.bayesopt.gpautograd.posterior_state import (
         GaussProcPosteriorState, IncrementalUpdateGPPosteriorState)
     from syne_tune.optimizer.schedulers.searchers.bayesopt.gpautograd.constants import MIN_POSTERIOR_VARIANCE
@@ -371,6 +414,11 @@ def run_case(ctx, spec):
             bad_kernel = True
             viol("%s deviates from the independent kernel formula by %.3g (tol %.3g)" % (name, dev, ktol),
                  "kernel")
+    if ck_cases is not None and sub in ("warp", "product", "range"):
+        ck_cases.append("(%s, %s, %s, %s, %s, %s, %s)" % (ref.coq(), _fl(JITTER), _fmat(X), _fmat(Xt), _fmat(K), _fmat(Kte),
+                                                      _fl(ktol + ref.pow_extra(allX))))
+        ck_meta.append(dict(kind="gpc", spec=spec))
+        ctx.h("composite_coq_tol_useful", bool(ktol + ref.pow_extra(allX) < 1e-6 * ref.cs_bound()))
     mtol = 64 * EPS * (1 + float(np.max(np.abs(mref(allX)))))
     if not (np.all(np.abs(mv - mref(X)) <= mtol) and np.all(np.abs(ms - mref(Xt)) <= mtol)):
         viol("mean function deviates from the independent formula", "mean_function")
